@@ -124,6 +124,10 @@ def one_case(ctx, k):
                 if fo[0] in ("missing", "error"):
                     v("variant-output", f"output {path}: {fo}")
                     continue
+                if not fo[1] and not (R1 if which != 2 else R2)[1]:
+                    # no record was written (every read filtered): an empty file has no format to observe
+                    ctx.count("empty-output-format-unobservable")
+                    continue
                 if fo[0] != expect_fmt:
                     v("output-format", f"output {path} is {fo[0].upper()}, the name/options request {expect_fmt.upper()}")
                     continue
@@ -162,6 +166,25 @@ def one_case(ctx, k):
                 tag = f"fa{cores}{ext}"
                 argv = base + (["-j", "2", "--buffer-size", "2000"] if cores == 2 else []) + ["-o", f"n1_{cores}{ext}"] + (["-p", f"n2_{cores}{ext}"] if paired else []) + ins
                 variant(f"name={ext} cores={cores}", argv, [(f"n1_{cores}{ext}", 1)] + ([(f"n2_{cores}{ext}", 2)] if paired else []), expect_fmt="fasta")
+        # --- names outside the documented four (other spellings, upper case, legacy extensions): whatever format the plain
+        #     single-core run of that name produces, every compression suffix and core count must produce the same
+        for stem in rng.sample([".FASTA", ".Fa", ".FQ", ".fna", ".csfasta", ".csfa", "_sequence.txt", ".txt", ".seq", ".fastq.txt"], 2 if ctx.tier == "quick" else 5):
+            nm = lambda mate, cores, sfx: f"x{mate}_{cores}{stem}{sfx}"
+            r0 = climon.run(d, base + ["-o", nm(1, 1, "")] + (["-p", nm(2, 1, "")] if paired else []) + ins, tag="nm0", trace=False)
+            if r0.rc != 0:
+                ctx.count("name-consistency-plain-run-failed")
+                continue
+            f0 = stream(d, nm(1, 1, ""))
+            if f0[0] in ("missing", "error") or not f0[1]:
+                ctx.count("name-consistency-format-unobservable")
+                continue
+            for sfx in ["", rng.choice([".gz", ".bz2", ".xz", ".zst"])]:
+                for cores in (1, 2):
+                    if (sfx, cores) == ("", 1):
+                        continue
+                    argv = base + (["-j", "2", "--buffer-size", "2000"] if cores == 2 else []) + ["-o", nm(1, cores, sfx)] + (["-p", nm(2, cores, sfx)] if paired else []) + ins
+                    variant(f"name-consistency={stem}{sfx} cores={cores}", argv, [(nm(1, cores, sfx), 1)] + ([(nm(2, cores, sfx), 2)] if paired else []),
+                            expect_fmt=f0[0], names_seqs_only=(f0[0] == "fasta"))
         # --- unknown extension: falls back to the input format
         argv = base + ["-o", "u1.out"] + (["-p", "u2.out"] if paired else []) + ins
         variant("name=.out", argv, [("u1.out", 1)] + ([("u2.out", 2)] if paired else []))
